@@ -101,7 +101,16 @@ pub(super) fn translate_operator(
                     ctx,
                 )?;
 
-                text += &arg.into_source();
+                // `-` directly followed by an operand that itself starts with `-` (a negation or
+                // a negative literal) would read as the SQL comment marker `--`
+                let arg = arg.into_source();
+                if text.ends_with('-') && arg.starts_with('-') {
+                    text += "(";
+                    text += &arg;
+                    text += ")";
+                } else {
+                    text += &arg;
+                }
             }
             pl::InterpolateItem::String(s) => {
                 text += s;
